@@ -44,7 +44,7 @@ def _verify_one(args):
         prog = Program(src)
         for _n, _p in registry.SIDE_MODULES.items():
             prog.add_module(_n, _p)
-        V = Verifier(prog, registry.SCHEMA, registry.CONTRACTS, registry.SPEC, timeout_ms=timeout_ms)
+        V = Verifier(prog, registry.SCHEMA, registry.CONTRACTS, registry.SPEC, timeout_ms=(1200 if "canary_" in qual else timeout_ms))
         V.hints = hints
         return V.verify(qual)
     except Exception as e:  # never let an engine crash look like a verdict
@@ -145,6 +145,13 @@ def main():
             if not v["requires_satisfiable"]:
                 obl["%s/vacuity:%s" % (q.replace("measured.", ""), v["combo"])] = {"status": "undecided", "note": "contradictory requires", "ms": 0, "function": q}
     obl.update(static_res)
+    # vacuity canaries (DESIGN 2.10): a deliberately false lemma must NOT be provable
+    for oid in list(obl):
+        if "lemmas.canary_" in oid and "/unexpected:AssertionError" in oid:
+            if obl[oid]["status"] == "discharged":
+                obl[oid] = dict(obl[oid], status="undecided", note="vacuity: the canary (a false lemma) was proved, the lemma hypotheses are contradictory")
+            else:
+                obl[oid] = dict(obl[oid], status="discharged", note="canary not provable, as required (%s)" % obl[oid]["status"], strategy="plain-fast")
 
     base = {oid: (v["status"] if isinstance(v, dict) else v) for oid, v in ledger.get(prop, {}).items()}
     if a.update_ledger:
